@@ -13,6 +13,7 @@ mod c11;
 mod c13d;
 mod c17s;
 mod c14;
+mod c14u;
 mod c15;
 mod client_rig;
 mod driver_rig;
